@@ -875,8 +875,21 @@ fn case_window(r: &mut Rng, out: &mut Out, big: bool, forced: Option<(u64, usize
         Some(x) => x,
         None => {
             let ss = gen_specs(r, big);
-            let total: usize = ss.iter().map(|s| s.sel.as_ref().map_or(s.n, |v| v.len())).sum();
-            (r.below(4), gen_bound(r, total, big), gen_bound(r, total, big), ss)
+            let sizes: Vec<usize> = ss.iter().map(|s| s.sel.as_ref().map_or(s.n, |v| v.len())).collect();
+            let total: usize = sizes.iter().sum();
+            // a bound strictly inside a chunk (preferably one that carries a selection vector)
+            let inside = |r: &mut Rng| -> Option<usize> {
+                let cand: Vec<usize> = (0..ss.len()).filter(|&j| sizes[j] >= 2 && (ss[j].sel.is_some() || r.chance(1, 3))).collect();
+                if cand.is_empty() { return None; }
+                let j = *r.pick(&cand);
+                let start: usize = sizes[..j].iter().sum();
+                Some(start + 1 + r.below(sizes[j] as u64 - 1) as usize)
+            };
+            let mut s = gen_bound(r, total, big);
+            let mut n = gen_bound(r, total, big);
+            if r.chance(1, 3) { if let Some(x) = inside(r) { s = x; } }
+            if r.chance(1, 4) { if let Some(x) = inside(r) { n = x.saturating_sub(if r.chance(1, 2) { s.min(x) } else { 0 }).max(1); } }
+            (r.below(4), s, n, ss)
         }
     };
     let typed = r.chance(1, 2);
@@ -2481,6 +2494,12 @@ fn corpus(r: &mut Rng, out: &mut Out) {
     ] {
         case_window(r, out, true, Some((k, s, n, sizes.into_iter().map(|n| Spec { n, sel: None }).collect())));
     }
+    // bounds inside chunks that carry a partial selection vector (the selected, not the physical, rows count)
+    for k in 0..4u64 {
+        case_window(r, out, false, Some((k, 1, 2, vec![Spec { n: 4, sel: Some(vec![0, 2, 3]) }, Spec { n: 3, sel: Some(vec![1, 2]) }])));
+        case_window(r, out, false, Some((k, 4, 3, vec![Spec { n: 4, sel: Some(vec![0, 2, 3]) }, Spec { n: 5, sel: Some(vec![0, 2, 4]) }, Spec { n: 2, sel: None }])));
+    }
+    case_window(r, out, true, Some((1, 1025, 0, vec![Spec { n: 2048, sel: Some((0..2048).filter(|i| i % 2 == 0).collect()) }, Spec { n: 2048, sel: None }])));
     // K4: row key collisions
     case_distinct(r, out, Some(vec![Chunk { rows: vec![vec![V::Int(4607182418800017408)], vec![f(1.0)], vec![V::Int(0)], vec![f(0.0)]], sel: None }]));
     case_distinct(r, out, Some(vec![Chunk { rows: vec![vec![V::List(vec![V::Int(1)])]], sel: None }, Chunk { rows: vec![vec![V::Str("List([Int64(1)])".into())]], sel: None }]));
